@@ -4,7 +4,7 @@
     [sreach] strong reachability.  [order_complete h]: the heap walk meets every object.  The premise
     [gc ... = Some _] says the model's fuel sufficed (None = out of fuel). *)
 From Coq Require Import ZArith List Bool PArith FMapPositive.
-From ChibiV Require Import C16.Model C16.Spec C16.Proofs C16.GcProofs C16.FdProofs C16.FdSafety C16.History C16.HistProofs C16.FdOnce C16.Fuel C16.Examples C16.LayoutCheck C16.ScanOrder C16.Gate C16.GateProofs C16.NumOs C16.NumOsProofs C16.NoLeak Gen.C16_Layout.
+From ChibiV Require Import C16.Model C16.Spec C16.Proofs C16.GcProofs C16.FdProofs C16.FdSafety C16.History C16.HistProofs C16.FdOnce C16.Fuel C16.Examples C16.LayoutCheck C16.ScanOrder C16.Gate C16.GateProofs C16.NumOs C16.NumOsProofs C16.NoLeak C16.AutoGc C16.AutoGcProofs Gen.C16_Layout.
 Import ListNotations.
 
 (** the mark phase + ephemeron fixpoint mark exactly the SPEC's live set *)
@@ -371,3 +371,46 @@ Theorem history_open_descriptors_have_live_owners_after_gc : forall ops n fl st0
   exists a, open_owner (objs (hp st)) a x /\ live (objs (hp st0)) (roots_of st0) a.
 Proof. exact history_open_descriptors_have_live_owners_after_gc_l. Qed.
 Print Assumptions history_open_descriptors_have_live_owners_after_gc.
+
+(* ------------------------------------------------------------------ round 4: automatic collections and the gate (C16/AutoGc.v) *)
+(** [run_sched pol sched]: the history machine WITH the gate in which the allocation inside any operation may trigger a
+    collection (sexp_alloc: first fit failed), under a protocol [pol] for the flag: pinned (set after the allocation inside
+    make-ephemeron, never cleared), or with "the reset walk clears the flag when it met no marked weak object", or with "set
+    before the allocation".  For EVERY schedule from a fresh context and each protocol except both edits together: exactly
+    the states of the machine whose weak pass is always on, run on the history with an explicit collection in front of each
+    operation whose allocation triggered one — so every history_* theorem above holds under automatic collections. *)
+Theorem auto_gc_gate_transparent : forall pol sched n f, clears pol && sets_before pol = false ->
+  option_map snd (run_sched pol sched (false, init n (S f))) = run (expand sched) (init n (S f)).
+Proof. exact auto_gc_gate_transparent_l. Qed.
+Print Assumptions auto_gc_gate_transparent.
+
+(** pinned protocol: the flag is on exactly when make-ephemeron has been called, whatever the schedule *)
+Theorem auto_gc_pinned_flag : forall sched fl st n f,
+  run_sched pinned_policy sched (false, init n (S f)) = Some (fl, st) -> fl = existsb (fun ao => is_eph (snd ao)) sched.
+Proof. exact pinned_flag_l. Qed.
+Print Assumptions auto_gc_pinned_flag.
+
+(** the property under automatic collections and the gate: at any point of any scheduled history the NEXT collection
+    (explicit or automatic) breaks exactly the live ephemerons whose key is not live, and leaves the others untouched *)
+Theorem scheduled_key_broken_iff_unreachable : forall pol sched n f fl st fl' st' e o k,
+  clears pol && sets_before pol = false ->
+  run_sched pol sched (false, init n (S f)) = Some (fl, st) ->
+  gc_flag pol (fl, st) = Some (fl', st') ->
+  live (objs (hp st)) (roots_of st) e -> PM.find e (objs (hp st)) = Some o -> weakp o = true -> weak o = [Ptr k] ->
+  exists o', PM.find e (objs (hp st')) = Some o' /\
+    (live (objs (hp st)) (roots_of st) k -> weak o' = [Ptr k] /\ extra o' = extra o /\ brokenp o' = brokenp o) /\
+    (~ live (objs (hp st)) (roots_of st) k -> weak o' = [Imm] /\ extra o' = map (fun _ => Imm) (extra o) /\ brokenp o' = true).
+Proof. exact scheduled_key_broken_iff_unreachable_l. Qed.
+Print Assumptions scheduled_key_broken_iff_unreachable.
+
+(** _refuted: both edits together (flag cleared by a reset walk that met no weak object + flag set before the allocation):
+    K0; K1; make-ephemeron(R0,R1) whose allocation triggers a collection; drop R0; gc leaves a live, unbroken ephemeron
+    pointing at its swept key with the flag off, where the ungated machine breaks it; each edit alone agrees with it *)
+Theorem gate_cleared_and_set_before_allocation_refuted :
+  (exists st, run_sched (mkPolicy true true) sched_auto_eph (false, init 3 100) = Some (false, st) /\ dangling_key st) /\
+  (exists st e o, run (expand sched_auto_eph) (init 3 100) = Some st /\ obs st = [e] /\ PM.find e (objs (hp st)) = Some o /\
+                  weak o = [Imm] /\ extra o = [Imm] /\ brokenp o = true) /\
+  (forall pol, pol = mkPolicy true false \/ pol = mkPolicy false true \/ pol = pinned_policy ->
+     option_map snd (run_sched pol sched_auto_eph (false, init 3 100)) = run (expand sched_auto_eph) (init 3 100)).
+Proof. exact gate_cleared_and_set_before_allocation_refuted_l. Qed.
+Print Assumptions gate_cleared_and_set_before_allocation_refuted.
